@@ -19,6 +19,8 @@ def size(sz):
     if sz["c"] == "none":
         return ""
     ext = ",..." if sz["ext"] else ""
+    if sp == "lbMax":
+        return " (SIZE(%d..MAX%s))" % (sz["lb"], ext)
     if sz["lb"] == sz["ub"] and sp != "range":
         return " (SIZE(%d%s))" % (sz["lb"], ext)
     return " (SIZE(%d..%d%s))" % (sz["lb"], sz["ub"], ext)
